@@ -28,7 +28,9 @@ RULE = ("union of complete sub-lattices of family (lin, tdecay, logistic, osc[tu
 RULE_ADDED = ('Added later: [E] dependent parameters (w a function of the leaf behind p), [F] cotangent scaled by 1'
               'e-10, [G] dissipative families (linear decay with a*T ~ 30, logistic) on long horizons (7 / 26 outpu'
               't times) with adaptive methods and tight requests, with and without bck_options, tolerance 20 n (rto'
-              'l_fwd + rtol_bck) without an amplification factor; call-order plane in fresh interpreters.')
+              'l_fwd + rtol_bck) without an amplification factor; call-order plane in fresh interpreters. Round 4: '
+              "[H] the object's parameter re-assigned between the forward call and the backward pass (gradients and"
+              " the object's state after backward).")
 ASSUMPTIONS = [
     "tolerance per tensor x: rel * max(|ref_x|_inf, 0.1*G), G = largest reference gradient/state magnitude of the case; "
     "rel = K * exp(2*Lam*T) * max(1, Lam*T) * (E_fwd + E_bck), E = (h*Lam)^p / p! for a fixed-step method of order p "
